@@ -202,6 +202,8 @@ pub enum VG {
     RelHalfU,
     RelN,
     RelExpMinusN,
+    /// whatever surplus of the step is not yet absorbed by non-EPB uses, plus some cents
+    RelSurplusPlus(u32),
 }
 
 pub fn vg(huge_kwh: u32) -> BoxedStrategy<VG> {
@@ -224,6 +226,7 @@ pub fn vg(huge_kwh: u32) -> BoxedStrategy<VG> {
         2 => Just(VG::RelHalfU),
         2 => Just(VG::RelN),
         2 => Just(VG::RelExpMinusN),
+        2 => (0u32..=2_000).prop_map(VG::RelSurplusPlus),
     ]
     .boxed()
 }
@@ -282,6 +285,9 @@ pub struct RegimeG {
     pub fuel: Car,
     pub fuel2: Option<Car>,
     pub nepb: Option<Vec<VG>>,
+    /// non-EPB electricity use that absorbs the whole surplus of every step, plus some cents
+    /// (annual grid export exactly 0 with export to non-EPB uses > 0)
+    pub nepb_absorb: Option<u32>,
     pub steps: Vec<(u8, u32, u32, u32)>,
     pub pos: u8,
 }
@@ -532,9 +538,9 @@ fn regimeg(n: usize, p: &BParams) -> BoxedStrategy<RegimeG> {
         proptest::option::weighted(0.3, select(fuels)),
         proptest::option::weighted(0.5, vec(vg(huge), n)),
         vec((0u8..7, 0u32..=50_000, 1u32..=50_000, 0u32..=50_000), n),
-        any::<u8>(),
+        (any::<u8>(), proptest::option::weighted(0.2, 0u32..=5_000)),
     )
-        .prop_map(move |(srv1, srv2, has_pv, has_chp, fuel, fuel2, nepb, steps, pos)| RegimeG {
+        .prop_map(move |(srv1, srv2, has_pv, has_chp, fuel, fuel2, nepb, steps, (pos, nepb_absorb))| RegimeG {
             srv1,
             srv2,
             has_pv,
@@ -542,6 +548,7 @@ fn regimeg(n: usize, p: &BParams) -> BoxedStrategy<RegimeG> {
             fuel,
             fuel2,
             nepb: if allow_nepb { nepb } else { None },
+            nepb_absorb: if allow_nepb { nepb_absorb } else { None },
             steps,
             pos,
         })
@@ -634,6 +641,7 @@ impl Acc {
             VG::RelHalfU => u / 2,
             VG::RelN => nn,
             VG::RelExpMinusN => ((p - u).max(0) - nn).abs(),
+            VG::RelSurplusPlus(c) => ((p - u).max(0) - nn).max(0) + *c as i64,
         }
     }
 }
@@ -721,7 +729,15 @@ pub fn resolve(g: &BuildingG) -> Building {
                 _ => items.push((r.pos.wrapping_add(131), mk(Kind::Used { srv: Srv::COGEN, car: r.fuel }, &fin))),
             }
         }
-        if let Some(nv) = &r.nepb {
+        if let Some(c) = r.nepb_absorb {
+            let e = Car::ELECTRICIDAD.idx();
+            let vals: Vec<i64> = (0..n).map(|t| (acc.p[e][t] - acc.u[e][t]).max(0) + c as i64).collect();
+            for t in 0..n {
+                acc.nn[e][t] += vals[t];
+            }
+            items.push((r.pos.wrapping_add(173), mk(Kind::Used { srv: Srv::NEPB, car: Car::ELECTRICIDAD }, &vals)));
+            tags.push("nepb_absorbs_all_surplus".into());
+        } else if let Some(nv) = &r.nepb {
             let vals: Vec<i64> = (0..n).map(|t| acc.val(&nv[t], Car::ELECTRICIDAD, t)).collect();
             for t in 0..n {
                 acc.nn[Car::ELECTRICIDAD.idx()][t] += vals[t];
